@@ -64,7 +64,7 @@ def signatures(trees):
     seen = {}
 
     def add(name, f, drop):
-        if f.args.vararg or f.args.posonlyargs or f.args.kwarg:
+        if f.args.vararg or f.args.posonlyargs:
             seen.setdefault(name, set()).add(None)
             return
         seen.setdefault(name, set()).add(tuple(a.arg for a in f.args.args[drop:]))
@@ -153,6 +153,7 @@ class Canon(object):
             if isinstance(s, ast.Try):
                 for h in s.handlers:
                     h.body = self.block(h.body)
+        body = self.tidy(body)
         # right to left, so that what follows an `if` is already in canonical form when the `if` is looked at
         out = []
         for s in reversed(body):
@@ -160,6 +161,9 @@ class Canon(object):
                 out = self.norm_if(s, out)
             else:
                 out = [s] + out
+        return self.tidy(out)
+
+    def tidy(self, out):
         # N5
         res = []
         for s in out:
